@@ -258,9 +258,14 @@ fn scen(_spec: RunSpec) -> ScenFut {
                     // (deterministic file names, as the splitter's back-fill targets have, make such re-use real)
                     let mut path = format!("default/data/fed/fed_{k}.parquet");
                     if reuse_plan.get(k as usize % reuse_plan.len()).copied().unwrap_or(false) {
+                        // (only a path the compactor has finished with: collected AND no longer in its persisted list.
+                        // Between a collection and the next upload of the list a restarted compactor would delete the
+                        // path once more - harmless for names that are never used again, which is what the design
+                        // promises for data files, so re-use inside that window is not a history the system can see)
+                        let still_listed = persisted_pending(&finner).await;
                         for j in 1..k {
                             let old = format!("default/data/fed/fed_{j}.parquet");
-                            if finner.head(&Path::from(old.clone())).await.is_err() {
+                            if finner.head(&Path::from(old.clone())).await.is_err() && !still_listed.contains(&old) {
                                 sim::probe("path-of-a-collected-file-used-again");
                                 path = old;
                                 break;
@@ -420,8 +425,17 @@ fn scen(_spec: RunSpec) -> ScenFut {
             let end = sim::now_ns();
             // (a backward wall-clock jump legitimately postpones GC by the size of the jump: not judged then)
             if !jump && end - t_ns > (grace_s + 200) * 1_000_000_000 {
-                let files = files_existing_at(&seeds, &store::events(), u64::MAX);
+                let evs = store::events();
+                let files = files_existing_at(&seeds, &evs, u64::MAX);
                 for p in &persisted {
+                    // carried out = at some moment after the compactor died the file did not exist: it was already gone
+                    // when it died (deleted, list not yet uploaded), or it was deleted afterwards. (A file that exists
+                    // at the end under this name may be a new chunk written under the re-used path.)
+                    let gone_at_death = !evs.iter().filter(|e| e.t_ns <= t_ns && e.ok && e.path == *p && matches!(e.op, "PUT" | "DELETE")).last().map(|e| e.op == "PUT").unwrap_or(seeds.iter().any(|c| c.path == *p));
+                    let deleted_later = evs.iter().any(|e| e.t_ns > t_ns && e.ok && e.op == "DELETE" && e.path == *p);
+                    if gone_at_death || deleted_later {
+                        continue;
+                    }
                     if files.contains(p) && !pins.is_pinned(p) {
                         sim::violation("C09/persisted-deletion-not-carried-out", format!("{} was in pending-deletions.json when the compactor died at t=+{}s and still exists {} s later", short(p), t_ns / 1_000_000_000, (end - t_ns) / 1_000_000_000));
                     }
